@@ -21,7 +21,8 @@ def wfInv (cfg : Cfg) (tgt : Option Int) :
   skip := by intro s x q' sp hP _ _ hd _ _; exact PQ.wf_dequeue Item.due hP hd
   begin := by intro s x q' sp hP _ _ hd _ _; exact PQ.wf_dequeue Item.due hP hd
   enq := by intro x s via m t cid child _ _ h; exact PQ.wf_enqueue h _
-  cancel := by intro x s id _ h; exact wf_cancel h id
+  cancel := by intro x s id h; exact wf_cancel h id
+  link := by intro x s l h; exact h
   stop := by intro x s _ h; exact h
   sleep := by intro x s t _ _ h; exact h
   handled := by intro x s e _ _ h; exact h
@@ -62,7 +63,8 @@ theorem clockInv_iter (cfg : Cfg) (hb : 0 ≤ cfg.bump) (tgt : Option Int) (φ :
       · have := h3 r hr; simp only; omega
       · simp
   enq := by intro x s via m t cid child _ _ h; simpa [ClockInv, St.enqueue] using h
-  cancel := by intro x s id _ h; simpa [ClockInv, St.cancel] using h
+  cancel := by intro x s id h; simpa [ClockInv, St.cancel] using h
+  link := by intro x s l h; exact h
   stop := by intro x s _ h; simpa [ClockInv] using h
   sleep := by
     intro x s t _ ht ⟨h1, h2, h3⟩
@@ -119,7 +121,7 @@ theorem cancInv_iter (cfg : Cfg) (tgt : Option Int) (i : Nat) (log0 : List Ran) 
     · exact h1 e he hei
     · exact absurd hei hφ
   cancel := by
-    intro x s id _ ⟨h1, h2⟩
+    intro x s id ⟨h1, h2⟩
     refine ⟨?_, by simpa [St.cancel] using h2⟩
     intro e he hei
     simp only [St.cancel, List.mem_map] at he
@@ -128,6 +130,7 @@ theorem cancInv_iter (cfg : Cfg) (tgt : Option Int) (i : Nat) (log0 : List Ran) 
     split
     · rfl
     · next hne => rw [if_neg hne] at hei; exact h1 e0 he0 hei
+  link := by intro x s l h; exact h
   stop := by intro x s _ h; exact h
   sleep := by intro x s t _ _ h; exact h
   handled := by intro x s e _ _ h; exact h
@@ -257,7 +260,7 @@ theorem sortInv_iter (cfg : Cfg) (hb : 0 ≤ cfg.bump) (tgt : Option Int) :
       · have := h5 e he; simp only [St.enqueue]; omega
       · simp [St.enqueue]
   cancel := by
-    intro x s id _ ⟨hwf, h1, h2, h3, h4, h5⟩
+    intro x s id ⟨hwf, h1, h2, h3, h4, h5⟩
     refine ⟨wf_cancel' hwf id, by simpa [St.cancel] using h1, ?_, by simpa [St.cancel] using h3, ?_, ?_⟩
     · intro r hr e he
       simp only [St.cancel, List.mem_map] at he hr
@@ -269,6 +272,7 @@ theorem sortInv_iter (cfg : Cfg) (hb : 0 ≤ cfg.bump) (tgt : Option Int) :
       simp only [St.cancel, List.mem_map] at he
       obtain ⟨e0, he0, rfl⟩ := he
       rw [(cancelEntry_keep id e0).2.1]; exact h5 e0 he0
+  link := by intro x s l h; exact h
   stop := by intro x s _ h; exact h
   sleep := by
     intro x s t _ ht ⟨hwf, h1, h2, h3, h4, h5⟩
